@@ -26,6 +26,7 @@ RULE = (
     "point = a prefix of the history ('crash point'), load path in {classmethod load, load_checkpoint into a fresh "
     "agent}, k=1..3 further learn steps). Non-trivial = history prefix before the save contains a learn step or a "
     "mutation AND >= 50 leaves compared AND the continuation ran; distinct = distinct case descriptions"
+    " Added: load_checkpoint into existing agents with their own history (rl_hp / architecture / activation / parameter mutations, learn steps, other optional constructor values), a second agent restored from the same file whose fingerprint must not move while the first learns / acts / appends bookkeeping, bandits with reg=0.5, population checkpoints with ONE shared HyperparameterConfig and members mutated a different number of times"
 )
 ASSUMPTIONS = [
     "CPU only; files are written to a per-case temporary directory and removed",
